@@ -45,8 +45,10 @@ func handleBytes(h *handle) []value {
 	return []value{h}
 }
 
+// A byte string whose first element is a *handle stands for that handle
+// (fixed-size arrays filled from a handle keep it in element 0).
 func handleOf(b []value) (*handle, bool) {
-	if len(b) == 1 {
+	if len(b) >= 1 {
 		if h, ok := b[0].(*handle); ok {
 			return h, true
 		}
